@@ -60,3 +60,17 @@ Theorem C01_rev0_item_survives_close : forall (T : Type) (r : r0 T) x, r0_slot r
   snd (r0_dequeue (fst (r0_dequeue (r0_close r)))) = DeqNone.
 Proof. exact r0_item_survives_close. Qed.
 Print Assumptions C01_rev0_item_survives_close.
+
+(* system level: one stream direction end to end (application, chunking sender and its window,
+   carrier, receive loop, receiver queue and its window, reading application, credit frames),
+   every interleaving of these parties, every message sequence, chunk limit and window *)
+From GT Require Import Pipe PipeProofs.
+Theorem C01_system_prefix : forall (A : Type) cmax W ls (s : pst A),
+  prun cmax (p_init A W) ls = Some s -> prefix (p_delivered s) (p_submitted s).
+Proof. exact system_delivered_prefix. Qed.
+Print Assumptions C01_system_prefix.
+
+Theorem C01_system_complete : forall (A : Type) cmax W ls (s : pst A),
+  prun cmax (p_init A W) ls = Some s -> p_cur s = None -> p_wire s = [] -> p_rq s = [] -> p_delivered s = p_submitted s.
+Proof. exact system_complete_when_drained. Qed.
+Print Assumptions C01_system_complete.
